@@ -134,6 +134,7 @@ type FuncCtx struct {
 	observed      map[string]bool
 	callOrd       map[*ast.CallExpr]int
 	inAtCall      bool
+	atLit         map[*Clause]*ast.CallExpr
 	specPostDepth int
 	loopEntry     *State
 	coveredLoops  map[int]bool
